@@ -139,6 +139,15 @@ fn main() {
         Some("replay") if args.len() >= 2 => {
             driver::replay_main(&args[1], args.iter().any(|a| a == "--echo"))
         }
+        Some("minimise") if args.len() >= 4 => {
+            // development: shrink a plan file while it keeps violating (property, key)
+            let doc: serde_json::Value = serde_json::from_slice(&std::fs::read(&args[1]).expect("plan file")).expect("json");
+            let name = doc["scenario"].as_str().expect("scenario").to_string();
+            let (min, execs) = driver::minimise(&name, &doc["plan"], &args[2], &args[3], 400);
+            eprintln!("{} executions", execs);
+            println!("{}", serde_json::to_string_pretty(&serde_json::json!({"scenario": name, "plan": min})).unwrap());
+            0
+        }
         Some("gen") if args.len() >= 3 => {
             let scn = scenarios::by_name(&args[1]).expect("scenario");
             let idx: u64 = args[2].parse().expect("index");
